@@ -28,7 +28,7 @@ ASSUMPTIONS = ["an exception raised at a call boundary stands for any failure at
                "temp files are not output files: they may exist under the run's private TMPDIR"]
 REAL_VS_STUB = {"real": ["gen_params, gen_seq, gen_coords end to end, vermouth DeferredFileWriter, real file system"],
                 "stub": ["tqdm disabled", "sys.argv pinned", "sys.settrace crash injector"]}
-PROBES = ["publish_across_filesystems", "relative_output_path", "crash_between_open_and_write", "existing_file", "existing_backups", "later_success_other_path",
+PROBES = ["output_path_is_symlink", "publish_across_filesystems", "relative_output_path", "crash_between_open_and_write", "existing_file", "existing_backups", "later_success_other_path",
           "natural_failure", "prog_gen_params", "prog_gen_seq", "prog_gen_coords", "success_backup_checked"]
 EXHAUSTIVE = {}
 
@@ -78,14 +78,21 @@ def gen_job(verif_seed, tier, index):
     g = st.gen
     op = _base_op(g, prog, st, verif_seed, index)
     pre = []
-    state = g.choice(["absent", "file", "file+backups"])
+    state = g.choice(["absent", "file", "file+backups", "symlink"] if prog != "gen_seq" else ["absent", "file", "file+backups"])
     base = op["out"].split("/")[-1]
-    if state != "absent":
+    links = []
+    if state == "symlink":
+        # the output path is a symbolic link to another file of the directory: the link is what gets backed up
+        # (GROMACS style), the file it points to must stay untouched
+        pre.append(["res/run1.dat", f"previous content {g.getrandbits(40)}\n"])
+        links.append([op["out"], "run1.dat"])
+    elif state != "absent":
         pre.append([op["out"], f"previous content {g.getrandbits(40)}\n"])
     if state == "file+backups":
         for k in range(1, g.randint(2, 3)):
             pre.append([f"res/#{base}.{k}#", f"backup {k} {g.getrandbits(40)}\n"])
     op["pre_files"] = pre
+    op["pre_links"] = links
     op["relpath"] = g.choice([None, None, True, "dotdot"])
     if g.random() < 0.3:
         op["cwd"] = g.choice(["wd", "res"])
@@ -93,7 +100,7 @@ def gen_job(verif_seed, tier, index):
     ff2 = ffgen.gen_ff(g)
     follow = [histgen.make_op(ff2, ffgen.gen_resgraph(g, ff2, maxn=4), g, out="res/later.itp")]
     if g.random() < 0.5:
-        follow.append(dict(op, pre_files=[], crash_at=None))      # the failed job again, now succeeding
+        follow.append(dict(op, pre_files=[], pre_links=[], crash_at=None))      # the failed job again, now succeeding
     natural = g.random() < 0.25 and prog == "gen_params"
     return {"index": index, "run_seed": seed, "prog": prog, "op": op, "follow": follow, "state": state,
             "hashseed": st.env.choice(histgen.PALETTE), "natural": natural,
@@ -163,6 +170,16 @@ def _check_success(job, pre_map, r):
                 viols.append(("success.incomplete", f"{out} announces {n} atoms but has {len(lines)} lines", {}))
         except Exception as err:
             viols.append(("success.incomplete", f"{out} unreadable: {err}", {}))
+    if job["state"] == "symlink" and job["prog"] in ("gen_params", "gen_coords"):
+        # the previous directory entry (the link) is kept as backup: its content is the old content of the target
+        got = r["backups"].get(f"#{base}.1#")
+        if got != pre_map.get("res/run1.dat"):
+            viols.append(("success.backup", f"{out} was a link to run1.dat; the previous entry is not kept at #{base}.1# "
+                                            f"(found {got!r:.50})", {}))
+    for f in r.get("modified", []) + r.get("removed", []):
+        if f.startswith("res/") and f != out and f in pre_map:
+            viols.append(("success.clobbered-other", f"{job['prog']} succeeded writing {out} but the existing file {f} was "
+                                                     f"{'modified' if f in r.get('modified', []) else 'removed'}", {}))
     if job["prog"] in ("gen_params", "gen_coords"):
         if out in pre_map:
             k = 1
@@ -187,6 +204,8 @@ def run_job(job):
     viols = []
     nt = set()
     evals = 0
+    if job["state"] == "symlink":
+        probes["output_path_is_symlink"] = 1
     if op.get("relpath"):
         probes["relative_output_path"] = 1
     if job["state"] != "absent":
@@ -310,6 +329,6 @@ def reductions(job):
             yield cand
     if job["op"].get("pre_files"):
         cand = dict(job)
-        cand["op"] = dict(job["op"], pre_files=[])
+        cand["op"] = dict(job["op"], pre_files=[], pre_links=[])
         cand["state"] = "absent"
         yield cand
